@@ -27,8 +27,12 @@ namespace {
 // consumer running; a join() called in that window returns although that item was not consumed yet (it is
 // consumed as soon as the slower producer finishes its own execute()). While this flag is true the strict
 // "consumed when a concurrent join() returns" check skips exactly the items whose execute() overlapped another
-// thread's execute(); set it to false to reproduce the finding.
-constexpr bool known_join_misses_item_behind_inflight_push = true;
+// thread's execute(); build with -DC16_KNOWN_JOIN_FINDING=0 to check strictly and reproduce the finding
+// (witness: corpus/c16_execq/known_join_behind_inflight_push.replay.json).
+#ifndef C16_KNOWN_JOIN_FINDING
+#define C16_KNOWN_JOIN_FINDING 1
+#endif
+constexpr bool known_join_misses_item_behind_inflight_push = C16_KNOWN_JOIN_FINDING != 0;
 
 struct PerThread {
   bool pushing = false;     // inside execute() (a push may be in flight)
